@@ -56,7 +56,7 @@ Init == /\ script \in Scripts
         /\ c2s = <<>> /\ s2c = <<>>
         /\ srv = [pc |-> "idle", k |-> 0, nd |-> 0]
         /\ cli = [pc |-> "start", op |-> 0, cur |-> "-", closed |-> FALSE, cancelled |-> FALSE, ended |-> FALSE,
-                  pend |-> <<>>, tok |-> FALSE, fin |-> FALSE, gen |-> "none", await |-> FALSE]
+                  pend |-> <<>>, tok |-> FALSE, fin |-> FALSE, gen |-> "none", await |-> FALSE, derr |-> FALSE]
         /\ hist = <<>>
 
 Http == script.tr = "http"
@@ -147,17 +147,19 @@ CSessionPipe ==
      ELSE UNCHANGED s2c /\ Log(Ev("sess", "nohdr", 0, ""))
   /\ cli' = [cli EXCEPT !.pc = "ready"]
   /\ UNCHANGED <<script, c2s, srv>>
-\* http: the whole /init response is read: header, preloaded batches, token or end; an error fails the call itself
+\* http: the whole /init response is read: header, preloaded batches, token or end.  An error in it fails the call itself
+\* only when nothing was received before it; behind a header (or batches) it is kept and raised once those were handed over
 RECURSIVE DataOf(_)
 DataOf(q) == IF q = <<>> THEN <<>> ELSE (IF Head(q).t = "D" THEN <<Head(q).n>> ELSE <<>>) \o DataOf(Tail(q))
 Has(q, t) == \E i \in 1..Len(q) : q[i].t = t
 CSessionHttp ==
   /\ Http /\ cli.pc = "rd_init" /\ c2s = <<>> /\ srv.pc # "idle"
   /\ s2c' = <<>>
-  /\ IF Has(s2c, "E")
+  /\ IF Has(s2c, "E") /\ ~script.hdr /\ DataOf(s2c) = <<>>
      THEN /\ Log(Ev("E", "", 0, "")) /\ cli' = [cli EXCEPT !.pc = "nosession", !.ended = TRUE]
      ELSE /\ Log(Ev("sess", IF script.hdr THEN "hdr_ok" ELSE "nohdr", 0, ""))
-          /\ cli' = [cli EXCEPT !.pc = "ready", !.pend = DataOf(s2c), !.tok = Has(s2c, "K"), !.fin = ~Has(s2c, "K")]
+          /\ cli' = [cli EXCEPT !.pc = "ready", !.pend = DataOf(s2c), !.tok = Has(s2c, "K"), !.fin = ~Has(s2c, "K"),
+                                !.derr = Has(s2c, "E")]
   /\ UNCHANGED <<script, c2s, srv>>
 
 \* ---- tick / exchange / iteration ----------------------------------------------------------------------------
@@ -214,6 +216,8 @@ CTickHttpProd ==
      THEN /\ Log(Ev("D", "", Head(cli.pend), "")) /\ UNCHANGED <<c2s, s2c>>
           /\ cli' = IF cli.cur = "t" THEN [Done(cli) EXCEPT !.pend = Tail(cli.pend), !.gen = GenNext]
                                     ELSE [cli EXCEPT !.pend = Tail(cli.pend), !.gen = GenNext]
+     ELSE IF cli.derr /\ cli.gen # "loop"
+     THEN /\ Log(Ev("E", "", 0, "")) /\ cli' = [Done(cli) EXCEPT !.ended = TRUE, !.gen = "none", !.derr = FALSE] /\ UNCHANGED <<c2s, s2c>>
      ELSE IF cli.fin /\ cli.gen # "loop"
      THEN /\ Log(Ev("S", "", 0, "")) /\ cli' = [Done(cli) EXCEPT !.ended = TRUE, !.gen = "none"] /\ UNCHANGED <<c2s, s2c>>
      ELSE IF s2c = <<>> /\ ~cli.await
@@ -270,7 +274,7 @@ CCancelHttp ==
      THEN hist' = hist \o <<Ev("op", "x", 0, ""), Ev("C", "", 0, ""), Ev("ok", "x", 0, "")>>
      ELSE Log2(Ev("op", "x", 0, ""), Ev("ok", "x", 0, ""))
   /\ cli' = [Done(cli) EXCEPT !.cancelled = TRUE, !.fin = TRUE,
-                              !.pend = IF FixCancelRefuses THEN <<>> ELSE @]
+                              !.pend = IF FixCancelRefuses THEN <<>> ELSE @, !.derr = IF FixCancelRefuses THEN FALSE ELSE @]
   /\ UNCHANGED <<script, c2s, s2c, srv>>
 
 Client == CCall \/ CSessionPipe \/ CSessionHttp \/ CSkip \/ CUseAfterCancel \/ COpStart \/ CTickPipe \/ CDrainErr
